@@ -71,10 +71,11 @@ def item_text_and_log(it, schema, sizes):
             return name + b' ' + op + b' {' + b', '.join(toks) + b'}', log
         return name + b' ' + op + b' ' + toks[0], log
     if kind == 'func':
-        _, name, args = it
+        name, args = it[1], it[2]
         o = find(schema, name)
         k = int(o.func.split(':')[1])
-        return name + b'(' + b', '.join(args) + b')', ['f%d:%s:%d:%s' % (k, hx(name), len(args), ','.join(hx(TOK[a]) for a in args))]
+        trailing = len(it) > 3 and it[3] and args
+        return name + b'(' + b', '.join(args) + (b',' if trailing else b'') + b')', ['f%d:%s:%d:%s' % (k, hx(name), len(args), ','.join(hx(TOK[a]) for a in args))]
     if kind == 'sec':
         _, name, body = it
         o = find(schema, name)
@@ -108,7 +109,9 @@ def rand_items(r):
         elif c == 3:
             items.append(('list', r.pick([b'il', b'sl']), [t()], False, r.pick([b'=', b'+='])))
         elif c in (4, 5):
-            items.append(('func', r.pick([b'fn', b'g']), [t() for _ in range(r.below(4))]))
+            items.append(('func', r.pick([b'fn', b'g']), [t() for _ in range(r.below(4))], r.chance(1, 3)))
+            if r.chance(1, 2):      # directly followed by another call: its arguments are its own
+                items.append(('func', r.pick([b'fn', b'g']), [t() for _ in range(r.below(3))], r.chance(1, 4)))
         elif c == 6:
             items.append(('sec', b'sec', [('scalar', b'a', t()) for _ in range(r.below(3))]))
         else:
